@@ -135,7 +135,7 @@ impl Ty {
 
 fn ty_strategy() -> impl Strategy<Value = Ty> {
     let leaf = prop_oneof![6 => (0u8..16).prop_map(Ty::Prim), 2 => Just(Ty::Str), 1 => Just(Ty::BoxStr), 1 => Just(Ty::Plain)];
-    leaf.prop_recursive(4, 20, 4, |inner| {
+    leaf.prop_recursive(5, 48, 4, |inner| {
         prop_oneof![
             2 => inner.clone().prop_map(|t| Ty::Boxed(Box::new(t))),
             2 => inner.clone().prop_map(|t| Ty::Vector(Box::new(t))),
